@@ -60,26 +60,33 @@ CLAIMED['C04'] = dict(
     level='exploration',
     text='Seeded search over generated module classes (all datatypes, readonly/constant/export flags, limit '
          'parameters, check hooks, commands) and change/do request sequences from 1..3 concurrent wire clients with '
-         'payloads from the boundary catalogue of the described datainfo, while limits are moved and pollers run. '
+         'payloads from the boundary catalogue of the described datainfo (incl. NaN/Infinity), while limits are moved '
+         '(by wire requests and, in part of the runs, by a driver-side thread through the write methods of the limit '
+         'parameters) and pollers run. '
          'Every driver call in the recorded log must be attributable to exactly one request that an independent '
          'three-valued reference validator does not reject, with the canonical value, within the limits in force; '
          'every must-reject request gets an error of a fitting class and leaves cache and update stream untouched.',
     note='Trusted: simulation kernel, the reference validator sim.dtgen.classify (DONTCARE = documented leniencies), '
          'request/driver-call attribution by handler task and request window. Limits in force are replayed from the '
-         'accepted limit changes; overlapping limit changes make the verdict DONTCARE.',
+         'accepted limit changes; overlapping limit changes make the verdict DONTCARE. Independently of that every '
+         'write call is judged against the limits snapshot the fake driver takes at the call (checks, limit changes '
+         'through write methods and the driver call all run under the access lock of the module).',
     design='6/C04')
 
 CLAIMED['C11'] = dict(
     level='exploration',
     text='Seeded search over 2..4 caller threads x request mixes (equal/distinct keys, unknown actions, unique id per '
          'request) against a scripted SECoP peer (reply order and delay up to beyond the time-out, error replies, '
-         'updates, unsolicited replies, garbage, half lines) with peer close/reset/black hole, refused reconnects '
+         'updates, streamed updates of an active node, unsolicited replies, garbage, half lines) with peer '
+         'close/reset/black hole, refused reconnects '
          'and user disconnect at arbitrary points, pre-empting the real SecopClient/AsynTcp threads at lock '
          'operations and line events of client/__init__.py. Checked per caller: own reply or error, no duplicate '
-         'delivery, wait bounded, release on loss with a connection error; disconnect() returns without raising, '
+         'delivery, wait bounded, no request left untransmitted once every request with the same key was answered, '
+         'release on loss with a connection error; disconnect() returns without raising, '
          'no worker thread left.',
     note='Trusted: simulation kernel, simulated TCP, scripted peer. Replies sent after the owner gave up and unknown '
-         'actions mixed with unsolicited replies are exempt (SECoP has no request ids). Known findings: the '
+         'actions mixed with unsolicited replies are exempt (SECoP has no request ids), also down a chain of '
+         'displaced replies that starts at such a late reply. Known findings: the '
          'connect()/disconnect() races after a second connection (known_findings.json).',
     design='6/C11')
 
@@ -90,9 +97,10 @@ CLAIMED['C12'] = dict(
          'callback (un)registration at node/module/parameter level incl. raising and one-shot callbacks, ordered against '
          'the rx thread by sync markers; (e2e) real client <-> real node with recording drivers, '
          'setParameter/getParameter/execCommand over generated parameters of every datatype; (proxy) the same through '
-         'a real node of frappy.proxy modules, with a connection drop. Cache = import of the last message, timestamp '
+         'a real node of frappy.proxy modules, with a connection drop; in both while the drivers of the node publish '
+         'values of their own (second sender on the connection). Cache = import of the last message, timestamp '
          'never in the future, each callback exactly once per message in order, driver argument = caller value, '
-         'cache = driver return value.',
+         'cache = driver return value; at quiescence client cache = node cache and no message was unreadable.',
     note='Trusted: simulation kernel, scripted peer, fake driver, the harness\' own wire<->python conversion. Proxy '
          'world: commands with tuple/struct arguments are left out (frappy.proxy cannot forward them) and reads are not '
          'judged (a proxy answers reads from its update cache).',
@@ -102,9 +110,11 @@ CLAIMED['C16'] = dict(
     level='exploration',
     text='Seeded search over 2..4 caller tasks (communicate, writeline, multicomm with delays) plus the poll thread '
          'against real StringIO/BytesIO + AsynTcp and a scripted device (token echo, reply delays up to beyond the '
-         'time-out, garbage, silence, close before/inside/after a reply, refused reconnects), with network chunking and '
+         'time-out, unsolicited messages in segments of their own or in the segment of a reply, incomplete messages '
+         'followed by silence, close before/inside/after a reply, refused reconnects), with network chunking and '
          'pre-emption at lock operations and line events of io.py/asynconn.py. Checked: own reply per command (stale = '
-         'arrived before the command left), communicator lock (no overlapping in-flight windows, no foreign command '
+         'read from the socket before the command left, judged on the byte stream by the event number of the recv), '
+         'communicator lock (no overlapping in-flight windows, no foreign command '
          'inside a multicomm), delays honoured, failures are communication errors within the time-out bound, reconnect '
          'rate of callers, reconnect callbacks exactly once per reconnect, healing and poll resumption after faults stop.',
     note='Trusted: simulation kernel, simulated TCP, scripted device. Bytes arriving after a command was sent cannot '
@@ -114,7 +124,8 @@ CLAIMED['C16'] = dict(
 
 CLAIMED['C17'] = dict(
     level='fault_enumeration',
-    text='For every generated module (persistent parameters of all datatypes, auto/explicit saving, write methods, '
+    text='For every generated module (persistent parameters of all datatypes, auto/explicit saving, with/without write '
+         'method, writable or read-only, '
          'configured values) and operation history (set, assign, save, load, factory reset, restart) the real '
          'PersistentMixin is re-run once for EVERY file-system operation of every step x {error, torn write, crash '
          'before / after / inside} under two write models (unbuffered, buffered until close) - exhaustive per history; '
@@ -176,11 +187,12 @@ CLAIMED['C15'] = dict(
     text='Seeded search over attachment graphs on 2..5 generated, instrumented modules (acyclic, cyclic, missing, wrongly '
          'typed, optional/empty, not configured), first-use phase per attachment (earlyInit, initModule, startModule, poll, '
          'shutdown, never), shuffled declaration order, Pinata with dynamic modules, shared communicator through uri, '
-         'configured writes, failing early/late initialisation, slow or hanging first polls, shutdown during a read - '
+         'configured writes, failing early/late initialisation, slow or hanging first polls, shutdown during a read '
+         '(shorter and longer than the grace time) - '
          'running the real Server._processCfg, start events, poll threads and SecNode.shutdown_modules. Event log rules: '
          'each phase exactly once and in order, attached module initialised before use, configuration errors reported, '
          'configured write before the first poll, ready only after the first round or the time-out, pollers stopped '
-         'before any shutdownModule, users shut down before the modules they are attached to.',
+         'before any shutdownModule and no poll still in progress then unless the grace time ran out, users shut down before the modules they are attached to.',
     note='Trusted: simulation kernel, instrumented module classes. Graphs are sampled, not enumerated. An attachment to a '
          'missing/wrongly typed module that is never touched, or touched only at run time, is not required to be reported.',
     design='6/C15')
@@ -194,7 +206,8 @@ CLAIMED['C10'] = dict(
          'description and limits must be used by later range checks (wire probes); with 0..3 injected errors (unknown '
          'name, unknown parameter property, wrong type, missing mandatory property, required value missing, inverted '
          'limits, bad module property) start-up must end with the error report naming every failing module and no '
-         'configured value may have reached any driver.',
+         'configured value may have reached any driver. In a quarter of the runs the node is restarted on the same '
+         'loaded configuration (as Server.run does after Server.restart) and the second generation is judged.',
     note='Trusted: simulation kernel, fake driver, generated classes. The clauses "start value = converted configured '
          'value" and "description shows the overrides" are pure configuration->result statements checked as riders of '
          'the simulated start-up; the write-once-before-first-poll and rejected-whole clauses need the running node.',
@@ -204,13 +217,16 @@ CLAIMED['C18'] = dict(
     level='exploration',
     text='Seeded search over generated layouts (StructParam with combined or member access methods, FloatEnumParam label '
          'sets, limit parameters min/max/limits, 1..3 HasOutputModule controllers on one HasControlledBy output) and '
-         'operation histories issued alternately by a wire client and by the driver while the poll thread runs. After '
+         'operation histories issued alternately by a wire client and by the driver while the poll thread runs, with '
+         'one-shot hardware faults inside struct accesses and, where frappy establishes consistency inside the update '
+         'lock, a concurrent driver-side assignment. After '
          'every operation: struct and members agree member by member and a write leaves the other members alone; the '
          'cached float value belongs to the cached index and a float write selects the closest allowed value; no value '
          'outside the limits in force reaches the driver and an inverted limits pair is refused; at most one controller '
          'is active, the output names exactly it, a take-over switches the previous one off.',
     note='Trusted: simulation kernel, generated classes with hardware registers. Operations of client and driver are '
-         'issued one after the other (the invariants are quiescent-point invariants); the poll thread runs concurrently.',
+         'issued one after the other (the invariants are quiescent-point invariants); the poll thread runs concurrently; '
+         'the concurrent assignment is limited to index writes and to structs with combined access methods.',
     design='6/C18')
 
 CLAIMED['C06'] = dict(
@@ -218,7 +234,8 @@ CLAIMED['C06'] = dict(
     text='Seeded search over nodes built from generated module classes (all datatypes, readonly/constant/export flags, '
          'commands, unexported modules, constants of every datatype) and from the shipped hardware-free configurations '
          '(demo, sim, cryo, test, sim_mlz_htf02, sim_mlz_cci3he1, ls370sim; their threads, sleeps and random numbers run '
-         'behind the seams), probed by a describing client over the wire while poll threads and a second client run: '
+         'behind the seams), probed by a describing client over the wire while poll threads and a second client run '
+         'and the driver now and then assigns a reading the datatype refuses: '
          'description strict JSON and stable between calls; described datainfo accepts/rejects what the node does '
          '(reference validator); every emitted value (read/changed replies, updates) importable by the reference '
          'validator and by frappy\'s own client datatype; readonly/constant flags predict refusal, constants read as '
